@@ -126,7 +126,7 @@ case "${1:-}" in
       # the tree has process-wide atomics: put them behind shuttle's scheduler and explore callers' interleavings
       rep="$SIM/target/run/$prop-$tier-conc.json"; mkdir -p "$SIM/target/run"; rm -f "$rep"
       if conc_build; then
-        iters=3000; secs=40; [ "$tier" = thorough ] && { iters=60000; secs=600; }
+        iters=15000; secs=60; [ "$tier" = thorough ] && { iters=300000; secs=900; }
         "$CONCBIN" conc --prop "$prop" --root "$ROOT" --iterations "$iters" --max-secs "$secs" --out "$rep" >/dev/null 2>"$SIM/target/conc-run.log"
         [ -f "$rep" ] && concargs=(--conc-report "$rep")
       else
